@@ -1,0 +1,13 @@
+//go:build verif
+
+package file
+
+// CrashHook, when set, is called at every crash point with the site name and the path about to be
+// (or just) written.  Verification harnesses use it to simulate the process dying there.
+var CrashHook func(site, path string)
+
+func crashPoint(site, path string) {
+	if CrashHook != nil {
+		CrashHook(site, path)
+	}
+}
